@@ -222,7 +222,13 @@ func materialise(c *runCase) (string, error) {
 		}
 	}
 	for _, n := range c.NoRead {
-		os.Chmod(filepath.Join(base, n), 0)
+		p := filepath.Join(base, n)
+		os.Chmod(p, 0)
+		if os.Geteuid() == 0 {
+			// mode 000 does not stop root: a link to a file that can be stat'ed but not read
+			os.Remove(p)
+			os.Symlink("/proc/self/mem", p)
+		}
 	}
 	return top, nil
 }
